@@ -193,13 +193,14 @@ fn valid_keys(k: KeyTy, n: usize, rng: &mut Rng) -> Vec<String> {
     while out.len() < n && tries < 40 {
         tries += 1;
         let s = match k {
-            KeyTy::Str => match rng.below(8) {
-                0 => String::new(),
+            KeyTy::Str => match rng.below(16) {
+                0 | 1 => String::new(),
+                2 => rng.pick(&["col\tumn", "line\nfeed", "\u{1b}[0m", "nul\0", "back\\slash", "quo\"te"]).to_string(),
                 _ => rng.pick(&WORDS).to_string(),
             },
             KeyTy::U8 => rng.below(256).to_string(),
             KeyTy::I32 => (rng.below(2001) as i64 - 1000).to_string(),
-            KeyTy::Char => rng.pick(&["a", "b", "c", "Z", "é", "7"]).to_string(),
+            KeyTy::Char => rng.pick(&["a", "b", "c", "Z", "é", "7", "\n", "\t", " ", "\\"]).to_string(),
         };
         if !out.contains(&s) {
             out.push(s);
@@ -239,11 +240,24 @@ fn cs_valid(s: Sc, rng: &mut Rng) -> Doc {
     if rng.chance(1, 8) {
         text = format!(",{text}");
     }
+    // brackets are characters like any other: "[a,b]" is the two pieces "[a" and "b]"
+    if matches!(s, Sc::Str) && rng.chance(1, 10) {
+        text = format!("[{text}]");
+    }
     Doc::Str(text)
 }
 
 pub fn gen_valid(cat: &Catalogue, d: &Desc, rng: &mut Rng, cfg: &GenCfg) -> Doc {
-    let len = |rng: &mut Rng| if cfg.depth == 0 { 0 } else { rng.below(cfg.max_len + 1) };
+    // now and then a sequence / object of a dozen or more entries (two-digit indexes)
+    let len = |rng: &mut Rng| {
+        if cfg.depth == 0 {
+            0
+        } else if rng.chance(1, 40) {
+            10 + rng.below(25)
+        } else {
+            rng.below(cfg.max_len + 1)
+        }
+    };
     let deeper = GenCfg { max_len: cfg.max_len, depth: cfg.depth.saturating_sub(1) };
     match d {
         Desc::Probe(_) => random_doc(rng, 2),
@@ -453,8 +467,20 @@ fn other_kind(doc: &Doc, rng: &mut Rng) -> Doc {
                 ])
                 .to_string(),
             ),
-            6 => Doc::Seq(vec![Doc::Int(1), Doc::Str("two".into())]),
-            _ => Doc::Map(vec![("k".to_string(), Doc::Null)]),
+            6 => {
+                if rng.chance(1, 3) {
+                    Doc::Seq(vec![])
+                } else {
+                    Doc::Seq(vec![Doc::Int(1), Doc::Str("two".into())])
+                }
+            }
+            _ => {
+                if rng.chance(1, 3) {
+                    Doc::Map(vec![])
+                } else {
+                    Doc::Map(vec![("k".to_string(), Doc::Null)])
+                }
+            }
         };
         if c.kind() != doc.kind() {
             return c;
@@ -591,6 +617,15 @@ impl<'a> Mutator<'a> {
                             if t.max < u64::MAX as i128 {
                                 c.push(int_doc(t.max + 1));
                             }
+                            // further out: not a multiple of 2^bits (a wrapping cast keeps it non-zero),
+                            // and beyond i64 for the signed targets the payload can still exceed
+                            if t.max < u64::MAX as i128 - 45 {
+                                c.push(int_doc(t.max + 2 + rng.below(43) as i128));
+                            }
+                            if t.max < u64::MAX as i128 {
+                                c.push(Doc::Int(u64::MAX - rng.below(7) as u64));
+                                c.push(Doc::Int(i64::MAX as u64 + 1 + rng.below(5) as u64));
+                            }
                             if t.min > i64::MIN as i128 {
                                 c.push(int_doc(t.min - 1));
                             }
@@ -608,7 +643,7 @@ impl<'a> Mutator<'a> {
                         }
                         Sc::U8 => Some(Doc::Int(*rng.pick(&[256u64, 300, u64::MAX]))),
                         Sc::I32 => Some(if rng.chance(1, 2) { Doc::Int(i32::MAX as u64 + 1) } else { Doc::Neg(i32::MIN as i64 - 1) }),
-                        Sc::Char => Some(Doc::Str(rng.pick(&["", "ab", "漢字"]).to_string())),
+                        Sc::Char => Some(Doc::Str(rng.pick(&["", "ab", "漢字", "a\nb", "x\r\ny"]).to_string())),
                         Sc::U64 => Some(Doc::Neg(-1)),
                         _ => None,
                     };
@@ -709,7 +744,11 @@ impl<'a> Mutator<'a> {
             Desc::Cs(s) => {
                 if self.cfg.range && self.hit(rng) && !matches!(s, Sc::Str) {
                     if let Doc::Str(t) = doc {
-                        t.push_str(",zz");
+                        if rng.chance(1, 4) {
+                            *t = format!("[{t}]");
+                        } else {
+                            t.push_str(",zz");
+                        }
                         self.counts.range += 1;
                     }
                 }
@@ -746,7 +785,19 @@ impl<'a> Mutator<'a> {
                                     (0, Some(p)) => {
                                         members.remove(p);
                                     }
-                                    (1, Some(p)) => members[p].1 = other_kind(&Doc::Str(String::new()), rng),
+                                    (1, Some(p)) => {
+                                        // a tag of the wrong kind; where a variant answers to a number's
+                                        // spelling, sometimes that very number (a number is not a string)
+                                        let numeric: Vec<u64> = variants
+                                            .iter()
+                                            .filter_map(|v| effective_key(&v.ident, &v.rename, *rename_all).parse::<u64>().ok())
+                                            .collect();
+                                        members[p].1 = if !numeric.is_empty() && rng.chance(1, 2) {
+                                            Doc::Int(*rng.pick(&numeric))
+                                        } else {
+                                            other_kind(&Doc::Str(String::new()), rng)
+                                        };
+                                    }
                                     (2, Some(p)) => {
                                         members[p].1 = Doc::Str(rng.pick(&["NoSuchVariant", "Énumération_inconnue_très_longue", "abcéx", ""]).to_string())
                                     }
